@@ -406,6 +406,9 @@ def conclude(prop, tier, seed, legs, wall):
             summ["executed"] += sh["counts"].get("executed", 0) if leg["params"]["kind"] in ("lab", "recipe", "obs") else sh["evaluated"].get(prop, 0)
             summ["skipped_behind_divergence"] += sh["counts"].get("skipped_unreachable", 0)
             summ["evaluated"] += sh["evaluated"].get(prop, 0)
+            if sh["counts"].get("tlc_truncated_by_32bit_overflow"):
+                # (a deep program shard whose last level TLC could not finish within 32-bit integers: everything it printed was replayed)
+                summ["tlc_shards_truncated_by_32bit_overflow"] = summ.get("tlc_shards_truncated_by_32bit_overflow", 0) + 1
             for vc in sh["violation_counts"]:
                 if vc["property"] != prop:
                     continue
